@@ -28,6 +28,8 @@ def shards(tier, seed):
     out = progshards.shards(tier, seed, PROPERTY)
     for j in range(4):
         out.append({'name': f'slow{j}', 'what': 'slow', 'part': j})
+    for j in range(3):
+        out.append({'name': f'odd{j}', 'what': 'odd', 'mod': 3, 'rem': j})
     for j in range(2):
         # pipelines below a pool prefetch under the controlled scheduler, every
         # line of core.py a switch point (machinery of C04)
@@ -79,6 +81,100 @@ def run_slow(spec, res):
                                        'consumer': 'slow'})
 
 
+def _ident(x):
+    return x
+
+
+def run_odd_values(spec, res):
+    """Examples that are None, falsy or empty (None, 0, False, '', [], (), {},
+    np.int64(0), b'', 0.0) through every stage that only forwards examples,
+    alone and in pairs: the same objects (type and value) in the same order,
+    twice.  A stage that uses None / a falsy value as its own "nothing" marker
+    would lose or stop at such an example."""
+    import itertools
+    import numpy as np
+    from ..common import import_lazy_dataset, exc_sig
+    ld = import_lazy_dataset()
+    vals = [None, 0, False, '', [], (), {}, np.int64(0), b'', 0.0, [None], 'x', None, 0]
+    ops = {
+        'map': lambda d: d.map(_ident),
+        'prefetch1': lambda d: d.prefetch(1, 2),
+        'prefetcht': lambda d: d.prefetch(2, 2, 't'),
+        'parmap': lambda d: d.map(_ident, num_workers=2, buffer_size=2),
+        'cache': lambda d: d.cache(),
+        'ecache': lambda d: d.cache(lazy=False),
+        'catch': lambda d: d.catch(),
+        'copy': lambda d: d.copy(),
+        'freeze': lambda d: d.copy(freeze=True),
+        'slice': lambda d: d[::-1][::-1],
+        'concat': lambda d: d[:3].concatenate(d[3:]),
+        'batch-unbatch': lambda d: d.batch(5).unbatch(),
+        'batch1-unbatch': lambda d: d.batch(1).unbatch(),
+        'filter-true': lambda d: d.filter(lambda x: True),
+        'efilter-true': lambda d: d.filter(lambda x: True, lazy=False),
+        'tile1': lambda d: d.tile(1),
+        'zip': lambda d: d.zip(d).map(lambda t: t[0]),
+        'prefetch1-catch': lambda d: d.prefetch(1, 2, catch_filter_exception=True),
+        'prefetcht-catch': lambda d: d.prefetch(2, 2, 't', catch_filter_exception=True),
+        'apply-lazy': lambda d: d.apply(lambda x: x.map(_ident), lazy=True),
+        'profiling': lambda d: ld.core.ProfilingDataset(d.map(_ident)),
+        'diskcache': lambda d: d.diskcache(),
+        'bucket': lambda d: d.map(lambda x: {'v': x, 'l': 1}).batch_dynamic_time_series_bucket(
+            2, 'l', 0.5).unbatch().map(lambda e: e['v']),
+        'groupby': lambda d: d.groupby(lambda x: 0)[0],
+        'split1': lambda d: d.split(1)[0],
+        'sort-stable': lambda d: d.map(lambda x: x).sort(lambda x: 0),
+        'local-shuffle-1': lambda d: d.shuffle(True, rng=np.random.RandomState(0),
+                                               buffer_size=1),
+    }
+    names = sorted(ops)
+    plan = [(a,) for a in names] + list(itertools.product(names, repeat=2))
+    cnt = 0
+    for backing, w in (('list', 'pickle'), ('list', 'copy'), ('list', 'wu'),
+                       ('dict', 'pickle'), ('dict', 'copy')):
+        src = vals if backing == 'list' else {f'k{i}': v for i, v in enumerate(vals)}
+        for chain in plan:
+            cnt += 1
+            if cnt % spec['mod'] != spec['rem']:
+                continue
+            if len(chain) == 2 and (backing, w) not in (('list', 'pickle'), ('dict', 'copy')):
+                continue
+            case = {'odd_values': True, 'backing': backing, 'immutable_warranty': w,
+                    'stages': list(chain)}
+            res.case(('odd', backing, w, chain), True)
+            try:
+                d = ld.from_list(src, immutable_warranty=w) if w == 'wu' else \
+                    ld.new(src, immutable_warranty=w)
+                for name in chain:
+                    d = ops[name](d)
+                got = [list(d), list(d)]
+            except BaseException as e:
+                # refused for ordinary examples too: a capability the
+                # composition does not have, nothing about the values
+                plain = list(range(len(vals)))
+                psrc = plain if backing == 'list' else {f'k{i}': v for i, v in enumerate(plain)}
+                try:
+                    d = ld.from_list(psrc, immutable_warranty=w) if w == 'wu' else \
+                        ld.new(psrc, immutable_warranty=w)
+                    for name in chain:
+                        d = ops[name](d)
+                    list(d)
+                except BaseException:
+                    res.count('odd_value_compositions_not_offered')
+                    continue
+                res.violation('refused-supported-composition', case, exc_sig(e),
+                              sig={'last_op': chain[-1], 'values': 'odd'})
+                continue
+            res.count('odd_value_iterations_compared', 2)
+            for g in got:
+                if len(g) != len(vals) or any(type(a) is not type(b) or a != b
+                                              for a, b in zip(g, vals)):
+                    res.violation('iteration-differs-from-reference', case,
+                                  {'got': repr(g)[:400], 'want': repr(vals)},
+                                  sig={'last_op': chain[-1], 'values': 'odd'})
+                    break
+
+
 def nontrivial(prog, status, m, o):
     return status == 'ok' and len(prog['ops']) >= 1 and m.n >= 1
 
@@ -86,6 +182,8 @@ def nontrivial(prog, status, m, o):
 def run_shard(spec, res):
     if spec['what'] == 'slow':
         return run_slow(spec, res)
+    if spec['what'] == 'odd':
+        return run_odd_values(spec, res)
     if spec['what'] == 'schedpipe':
         from . import c04
         return c04.run_schedpipe(spec, res)
@@ -103,6 +201,8 @@ def finalize(res, tier):
 def replay(case, res):
     from ..common import import_lazy_dataset
     ld = import_lazy_dataset()
+    if case.get('odd_values'):
+        return run_odd_values({'mod': 1, 'rem': 0}, res)
     prog = fix_prog(case['prog'])
     if 'schedule' in case:
         from . import c04
